@@ -1423,10 +1423,7 @@ func (c *aatApplyContext) applyKerxSubtable(st font.KernSubtable) bool {
 		}
 		kern(data, st.IsCrossStream(), c.font, c.buffer, c.plan.kernMask, true)
 	case font.Kern4:
-		crossStream := st.IsCrossStream()
-		if !c.plan.requestedKerning && !crossStream {
-			return false
-		}
+		// these are attachments to anchors, not kerning values : they do not depend on the 'kern' feature
 		dc := driverContextKerx4{c: c, table: data, actionType: data.ActionType()}
 		driver := newStateTableDriver(data.Machine, c.buffer, c.face)
 		driver.drive(&dc, c)
